@@ -356,3 +356,51 @@ def h_bootstrap(path: int, x: int) -> bool:
         if 0 <= x <= 255 and decode(kernel_status_exit(code)) != x:
             return fail('C19:bootstrap:exit-code-lost-on-the-way-to-the-parent')
     return True
+
+
+# ---------------------------------------------------------------------------
+# join(timeout) returns within the timeout: the readiness wait it rests on never waits longer than asked
+
+def h_wait_deadline(timeout: int, none: bool, t0: int, d1: int, d2: int, eintr: int) -> bool:
+    """
+    pre: -5 <= timeout <= 20 and 1 <= t0 <= 100 and 0 <= d1 <= 30 and 0 <= d2 <= 30 and 0 <= eintr <= 2
+    post: _
+    """
+    import billiard.connection as bc
+    times = [t0, t0 + d1, t0 + d1 + d2]
+    clock_calls = []
+
+    def clock():
+        clock_calls.append(1)
+        return times[min(len(clock_calls) - 1, 2)]
+    polls = []
+
+    def fake_poll(fds, tmo):
+        polls.append(tmo)
+        if len(polls) <= eintr and (tmo is None or tmo > 0):
+            raise OSError(errno.EINTR, 'interrupted')      # (PEP 475: a non-blocking poll is never interrupted)
+        return []
+    saved = (bc._poll, bc.monotonic)
+    bc._poll, bc.monotonic = fake_poll, clock
+    try:
+        tmo = None if none else timeout
+        bc.wait([7], tmo)
+    finally:
+        bc._poll, bc.monotonic = saved
+    if tmo is None:
+        if any(p is not None for p in polls):
+            return fail('C19:wait:untimed-wait-polled-with-a-timeout')
+        return True
+    # the kernel wait must never be entered with a negative timeout (poll(2): wait for ever) or without one,
+    # and never with more than the caller asked for
+    for p in polls:
+        if p is None:
+            return fail('C19:wait:timed-wait-polled-without-a-timeout')
+        if p > max(tmo, 0):
+            return fail('C19:wait:polled-longer-than-asked')
+    if tmo <= 0:
+        if polls != [0] or polls[0] < 0:
+            return fail('C19:wait:non-positive-timeout-does-not-poll-once-without-blocking')
+    elif polls[0] < 0:
+        return fail('C19:wait:negative-timeout-reaches-the-kernel')
+    return True
